@@ -17,9 +17,15 @@ def main():
     os.environ.setdefault("PYTHONHASHSEED", "0")
     from checks import props
     try:
-        if a.prop in props.SIM:
+        if a.prop == "C02":
+            from checks.txcheck import run_check
+            rc = run_check(tier, seed)
+        elif a.prop in props.SIM:
             from checks.simcheck import run_check
             rc = run_check(a.prop, props.SIM[a.prop], tier, seed, replay=a.replay)
+        elif a.prop == "C19":
+            from checks.refcheck import run_check
+            rc = run_check(tier, seed)
         elif a.prop == "C17":
             from checks.laddercheck import run_check
             rc = run_check(tier, seed)
